@@ -18,6 +18,7 @@ _sp = importlib.util.spec_from_file_location('verif_seeds', os.path.join(VERIF, 
 seeds_mod = importlib.util.module_from_spec(_sp)
 _sp.loader.exec_module(seeds_mod)
 
+DOCSTRING_CONTEXTS = ('function', 'class', 'dataclass', 'dataclass_second', 'dataclass_call', 'dataclass_name', 'namedtuple', 'namedtuple_name', 'typeddict')
 SUITE_SAFE = {'remove_pass', 'combine_imports', 'ann_variable', 'remove_object_base', 'remove_explicit_return_none', 'remove_builtin_exception_brackets'}
 
 
@@ -158,6 +159,12 @@ def run(args, rep):
         elif kind.startswith('suite:module_top') and 'litstr' in kind and not kind.startswith('suite:module_top:litstr'):
             # a string statement that becomes the module docstring once the statements before it are removed (known finding D20)
             if o.get('_out', '').lstrip().startswith(("'lit'", '"lit"')):
+                tag = 'D20:'
+        elif kind.startswith('suite:') and 'litstr' in kind and kind.split(':')[1] in DOCSTRING_CONTEXTS and not kind.split(':')[2].startswith('litstr'):
+            # ... or the docstring of the function / class whose body the block is: the observation differs in that docstring only
+            a, b = o.get('obs0', ''), o.get('obs_final', '')
+            if ("('fndoc', None)" in a and "('fndoc', 'lit')" in b and a.replace("('fndoc', None)", "('fndoc', 'lit')") == b) or \
+                    (", None)|" in a and ", 'lit')|" in b and a.replace(", None)|", ", 'lit')|", 1) == b):
                 tag = 'D20:'
         rep.violation(key=tag + (kind if kind != 'scope' else 'scope:' + sha(j['src'])[:12]) + '|' + rid.split('|')[1] + '|' + v[0], clause=v[0],
                       what='%s\n%s--- output:\n%s\ninput observation:  %s\noutput observation: %s' % (rid, j['src'][:1500], str(o.get('_out'))[:1500], o.get('obs0', '')[:300], o.get('obs_final', '')[:300]),
